@@ -448,3 +448,101 @@ Proof.
     split; [intros Hm; apply (Has_stage_keep child n mx' false s5); [lia|lia|exact (I5 Hm)]|].
     intros _. apply (Has_stage_new child n mx' false s5); lia.
 Qed.
+
+(* ---------- every attribute declaration: the three nodes parse_attribute creates first keep their kinds ---------- *)
+Lemma attr_head_gi required name p st : gi st -> gi (attr_head required name p st).
+Proof.
+  intros G. unfold attr_head, attr_head3, xnoop, xnoop_leaf.
+  destruct (gi_new (KDec false true) (Some (path_str p)) XPNone st G) as (G1 & E1 & L1 & K1 & S1). cbv zeta in *.
+  destruct (xnew (KDec false true) (Some (path_str p)) XPNone st) as [st1 super] eqn:EN1. cbn [fst snd] in *. subst super.
+  assert (D1 : is_dec (x_graph st1) (xlen st) = true) by (unfold is_dec; rewrite K1; reflexivity).
+  destruct (gi_new (KLeaf (negb required)) None XPNone st1 G1) as (G2 & E2 & L2 & K2 & S2). cbv zeta in *.
+  destruct (xnew (KLeaf (negb required)) None XPNone st1) as [st2 omit] eqn:EN2. cbn [fst snd] in *. subst omit.
+  destruct (gi_add (xlen st) (xlen st1) st2 G2) as (G3 & E3 & L3); [apply (xext_dec st1); auto; lia|lia|].
+  set (st3 := xadd (xlen st) (xlen st1) st2) in *.
+  destruct (gi_new (KDec false false) None (XPAttr name) st3 G3) as (G4 & E4 & L4 & K4 & S4). cbv zeta in *.
+  destruct (xnew (KDec false false) None (XPAttr name) st3) as [st4 root] eqn:EN4. cbn [fst snd] in *. subst root.
+  assert (E14 : xext st1 st4) by (eapply xext_trans; [exact E2|eapply xext_trans; eauto]).
+  destruct (gi_add (xlen st) (xlen st3) st4 G4) as (G5 & E5 & L5); [apply (xext_dec st1); auto; lia|lia|].
+  exact G5.
+Qed.
+
+Section AttrAll.
+Variable rec : xml -> xpath -> xbst -> res (xbst * nat).
+
+Theorem attribute_omission_label e parsed p st st' super parsed' :
+  rec_good rec e -> gi st -> xpaylen st ->
+  h_attribute rec e parsed p st = Ok (st', super, parsed') ->
+  let n := xlen st in let g := x_graph st' in
+  super = n /\ n + 3 <= xlen st' /\
+  kind_of g n = KDec false true /\ kind_of g (n + 1) = KLeaf (negb (attr_required e)) /\ kind_of g (n + 2) = KDec false false.
+Proof.
+  intros HR G P H n g.
+  assert (Goal5 : forall name, xext (attr_head (attr_required e) name p st) st' ->
+            n + 3 <= xlen st' /\ kind_of g n = KDec false true /\ kind_of g (n + 1) = KLeaf (negb (attr_required e)) /\
+            kind_of g (n + 2) = KDec false false).
+  { intros name [Lx Kx]. destruct (attr_head_spec (attr_required e) name p st P) as (L5 & _ & K5 & _). cbv zeta in *.
+    fold n in L5, K5. rewrite L5 in *. split; [lia|]. subst g. rewrite !Kx by lia. rewrite !K5. eqbs. auto. }
+  unfold h_attribute in H. destruct (ahas "ref" (attrs_of e)) eqn:ER; [discriminate|].
+  unfold lookup in H. destruct (aget (kw "name") (attrs_of e)) as [name|] eqn:EN; cbn [bind] in H; [|discriminate].
+  assert (HU : forall parsed1, (if ahas "use" (attrs_of e)
+            then do '(u, parsed0) <- match aget (kw "use") (attrs_of e) with None => xerr | Some v => Ok (v, remove_key (kw "use") parsed1) end;
+                 Ok (str_eqb u (kw "required"), parsed0) else Ok (false, parsed1))
+          = Ok (attr_required e, if ahas "use" (attrs_of e) then remove_key (kw "use") parsed1 else parsed1)).
+  { intros parsed1. unfold attr_required, ahas. destruct (aget (kw "use") (attrs_of e)); reflexivity. }
+  rewrite HU in H. cbn [bind] in H. clear HU.
+  set (parsed2 := if ahas "use" (attrs_of e) then _ else _) in H.
+  match type of H with bind ?X _ = _ => destruct X as [parsed3| | |] end; cbn [bind] in H; try discriminate.
+  pose proof (attr_head3_idx (attr_required e) name p st) as E3. unfold attr_head3 in E3.
+  pose proof (attr_head_gi (attr_required e) name p st G) as G5.
+  destruct (attr_head_spec (attr_required e) name p st P) as (L5 & _ & K5 & _). cbv zeta in L5, K5.
+  set (st5 := attr_head (attr_required e) name p st) in *.
+  destruct (xnoop false (Some (path_str p)) st) as [s1 a1]. destruct (xnoop_leaf (negb (attr_required e)) None s1) as [s2 a2].
+  destruct (xnew (KDec false false) None (XPAttr name) (xadd a1 a2 s2)) as [s3 a3].
+  pose proof (f_equal (fun x => fst (fst x)) E3) as E3a. pose proof (f_equal (fun x => snd (fst x)) E3) as E3b.
+  pose proof (f_equal snd E3) as E3c. cbn [fst snd] in E3a, E3b, E3c. clear E3.
+  rewrite E3b, E3c in *. rewrite E3a in H. clear E3a E3b E3c.
+  assert (D5 : is_dec (x_graph st5) (xlen st + 2) = true) by (unfold is_dec; rewrite K5; fold n; eqbs; reflexivity).
+  destruct (ahas "fixed" (attrs_of e)).
+  - match type of H with bind ?X _ = _ => destruct X as [parsed4| | |] end; cbn [bind] in H; try discriminate.
+    destruct (ahas "default" (attrs_of e)); [discriminate|].
+    destruct (aget (kw "fixed") (attrs_of e)) as [fixed|]; cbn [bind] in H; [|discriminate].
+    destruct (xset_good true None fixed st5 G5) as (G6 & E6 & L6). destruct (xset true None fixed st5) as [st6 l1]. cbn [fst snd] in *.
+    destruct (gi_add (xlen st + 2) l1 st6 G6) as (G7 & E7 & L7); [apply (xext_dec st5); auto; lia|exact L6|].
+    destruct (xset_good false None (fixed ++ kw "_INVALID") (xadd (xlen st + 2) l1 st6) G7) as (G8 & E8 & L8).
+    destruct (xset false None (fixed ++ kw "_INVALID") (xadd (xlen st + 2) l1 st6)) as [st8 l2]. cbn [fst snd] in *.
+    assert (E58 : xext st5 st8) by (eapply xext_trans; [exact E6|eapply xext_trans; eauto]).
+    destruct (gi_add (xlen st + 2) l2 st8 G8) as (G9 & E9 & L9); [apply (xext_dec st5); auto; lia|exact L8|].
+    injection H as <- <- _. split; [reflexivity|]. apply (Goal5 name). eapply xext_trans; eauto.
+  - destruct (ahas "type" (attrs_of e)).
+    + destruct (kids_of e); [|discriminate].
+      destruct (aget (kw "type") (attrs_of e)) as [ty|]; cbn [bind] in H; [|discriminate].
+      destruct (resolve_type_good ty st5 G5) as (G6 & E6 & L6). destruct (resolve_type ty st5) as [st6 t]. cbn [fst snd] in *.
+      destruct (gi_add (xlen st + 2) t st6 G6) as (G7 & E7 & L7); [apply (xext_dec st5); auto; lia|exact L6|].
+      injection H as <- <- _. split; [reflexivity|]. apply (Goal5 name). eapply xext_trans; eauto.
+    + destruct (attach_children rec (xlen st + 2) e p st5) as [st6| | |] eqn:EA; cbn [bind] in H; try discriminate.
+      destruct (attach_good rec (xlen st + 2) e p st5 st6 HR G5) as [G6 E6]; [lia|exact D5|exact EA|].
+      injection H as <- <- _. split; [reflexivity|]. apply (Goal5 name). exact E6.
+Qed.
+End AttrAll.
+
+(* ---------- _parse_occurs: what the two numbers handed to _repeat are ---------- *)
+Theorem parse_occurs_spec a parsed mn mx parsed' : parse_occurs a parsed = Ok (mn, mx, parsed') ->
+  (match aget (kw "minOccurs") a with None => mn = 1 | Some s => parse_int s = Some mn end) /\
+  (match aget (kw "maxOccurs") a with
+   | None => mx = Some 1
+   | Some s => if str_eqb s (kw "unbounded") then mx = None else parse_int s = mx /\ mx <> None
+   end).
+Proof.
+  unfold parse_occurs, lookup, ahas. intros H.
+  destruct (aget (kw "minOccurs") a) as [s1|]; cbn [bind] in H.
+  - destruct (parse_int s1) as [n1|] eqn:E1; cbn [bind] in H; [|discriminate].
+    destruct (aget (kw "maxOccurs") a) as [s2|]; cbn [bind] in H.
+    + destruct (str_eqb s2 (kw "unbounded")); cbn [bind] in H; [injection H as <- <- _; auto|].
+      destruct (parse_int s2) as [n2|] eqn:E2; cbn [bind] in H; [|discriminate]. injection H as <- <- _. split; [reflexivity|]. split; [reflexivity|discriminate].
+    + injection H as <- <- _. auto.
+  - destruct (aget (kw "maxOccurs") a) as [s2|]; cbn [bind] in H.
+    + destruct (str_eqb s2 (kw "unbounded")); cbn [bind] in H; [injection H as <- <- _; auto|].
+      destruct (parse_int s2) as [n2|] eqn:E2; cbn [bind] in H; [|discriminate]. injection H as <- <- _. split; [reflexivity|]. split; [reflexivity|discriminate].
+    + injection H as <- <- _. auto.
+Qed.
